@@ -147,11 +147,13 @@ CHECKS = {
     "C09": (
         "model_checking",
         "Complete option lattice: 32 subsets of the five formatting options "
-        "x --ffout schemes x 6 force fields x 5 structures, each compared "
+        "x --ffout schemes x 6 force fields x 6 structures (one with nine-"
+        "character coordinates), each compared "
         "with the subset-free run (identical atom order, residue numbers and "
         "x/y/z/charge/radius strings); --drop-water vs physically water-"
         "deleted input (byte equality); neutral-terminus flag subsets over "
-        "all 20 residue types at the chain ends (only terminal residues "
+        "all 20 residue types at the chain ends incl. a hidden chain end "
+        "(only terminal residues "
         "change, charge shift = termini actually neutralised).",
         "Relational oracle: no expected values, only relations between runs.",
         "exhaustive configuration-lattice exploration with a differential "
@@ -161,7 +163,8 @@ CHECKS = {
     "C10": (
         "model_checking",
         "3 (thorough 4) structures x all 128 subsets of {alt locs, insertion "
-        "codes, formal charges, 4-character names, two models, negative "
+        "codes, formal charges, 4-character names, two models (rows not "
+        "grouped by model), negative "
         "numbering, HETATM waters} x {AMBER, PARSE} x {default, --clean}: "
         "PDB text and an independently written mmCIF twin must give the same "
         "atoms, coordinates, charges and radii; failing feature sets are "
@@ -174,9 +177,10 @@ CHECKS = {
     "C11": (
         "model_checking",
         "Search over run histories in one process: every sequence of <=2 "
-        "(thorough <=3) runs from a 12-run alphabet (successes and failures, "
+        "(thorough <=3) runs from a 14-run alphabet (successes and failures, "
         "titration, ligand, --clean, two user force fields, heavy-atom "
-        "repair, tolerated parse error, multi-model file) executed in a fresh "
+        "repair, refused gapped structure, tolerated parse error, multi-model "
+        "PDB and mmCIF files) executed in a fresh "
         "child process; each run's PQR bytes must equal those of the run "
         "alone in a fresh process; every run repeated under several hash "
         "seeds; a structural fingerprint of pdb2pqr's module-level state "
@@ -254,7 +258,9 @@ CHECKS = {
         "naming schemes x bond-record orders through the real MOL2 reader "
         "and PEOE: conservation, name independence, order dependence only up "
         "to automorphisms, documented radii; complexes peptide + ligand + "
-        "all 32 subsets of other hetero groups x colliding names.",
+        "all 32 subsets of other hetero groups x colliding names, ligand "
+        "residue names ending in a digit or known to the force field, two "
+        "ligand copies.",
         "Phosphorus groups are not judged by the independent formal-charge "
         "model (the code documents a heuristic).",
         "bounded exhaustive molecule/permutation enumeration",
